@@ -12,10 +12,14 @@ line propagation made with ITS OWN baud rate and offset.
 import copy
 import math
 
+import warnings
+
 import numpy as np
 
 from common.util import Result, f2b, b2f, fl, err_kind
 from common import nets, nets_g
+
+warnings.filterwarnings('ignore', message='Polyfit may be poorly conditioned')
 
 ID = 'C13'
 N = {'quick': 900, 'thorough': 30000}
